@@ -1,6 +1,6 @@
 (* C31  File selection and path matching follow the documented rules.
    Statements only; every proof is `exact <lemma>`. *)
-From CV Require Import Base.Bytes Base.Glob Path.Defs Path.MatchProofs Path.SpecProofs Path.ListProofs Path.IterProofs Path.CanonProofs Path.Termination Path.WinProofs Path.FastProofs.
+From CV Require Import Base.Bytes Base.Glob Path.Defs Path.MatchProofs Path.SpecProofs Path.ListProofs Path.IterProofs Path.CanonProofs Path.Termination Path.WinProofs Path.FastProofs Path.WinCanon.
 From Coq Require Import Permutation Sorted.
 Local Open Scope N_scope.
 
@@ -87,6 +87,31 @@ Theorem C31_pathmatch_windows_total pattern path base isdir :
             (b = true <-> pathmatch_w_spec pattern path base isdir).
 Proof. exact (pathmatch_w_total pattern path base isdir). Qed.
 Print Assumptions C31_pathmatch_windows_total.
+
+(* the windows iterator reads the windows canonical form (separators unified,
+   case folded, root component kept, the rest canonicalised) whenever the root
+   component ends with a separator ("c:/", "//?/", "//", "/"), or there is no
+   root and the non-empty string does not begin with ".." *)
+Theorem C31_iterator_reads_canon_windows a b :
+  canon_ok_w a b = true -> iter_read_w a b = canon_w a b.
+Proof. exact (iter_read_w_canon a b). Qed.
+Print Assumptions C31_iterator_reads_canon_windows.
+
+(* hence PathMatch::match in windows syntax against the documented rules over
+   the windows canonical forms *)
+Theorem C31_pathmatch_windows_canon_total pattern path base isdir :
+  fast_ok pattern base = true ->
+  canon_ok_pattern_w pattern base = true -> canon_ok_path_w path base = true ->
+  exists b, pathmatch_w pattern path base isdir = Some b /\
+            (b = true <-> pathmatch_w_spec_canon pattern path base isdir).
+Proof. exact (pathmatch_w_total_canon pattern path base isdir). Qed.
+Print Assumptions C31_pathmatch_windows_canon_total.
+
+Example C31_windows_canon_example :
+  canon_ok_w [67;58;92;83;114;99;92;46;92;65;46;67] [] = true /\
+  canon_w [67;58;92;83;114;99;92;46;92;65;46;67] [] = [99;58;47;115;114;99;47;97;46;99] /\
+  canon_ok_w [67;58;120] [] = false.
+Proof. exact canon_w_example. Qed.
 
 Example C31_windows_example :
   iter_read_w [67;58;92;83;114;99;92;46;92;65;46;67] [] = [99;58;47;115;114;99;47;97;46;99] /\
